@@ -11,7 +11,12 @@ SPEC = {
     "theorems": ["C13_invariant", "C13_exact_or_refused", "C13_current_is_empty", "C13_window_served",
                  "C13_window_size", "C13_unknown_refused", "C13_foreign_session_refused", "C13_delta_since_spec", "C13_model_satisfies_spec",
                  "C13_nonvacuous"],
-    "streams": [_STREAM],
+    "streams": [_STREAM,
+                # an answer must also be exact when a validation cycle lands inside the query (shared with C15)
+                {"name": "readers13", "bin": "c15", "check_module": "C15.Spec", "fn": "check_rcase", "casetype": "rcase",
+                 "env": {"C15_STREAM": "readers"},
+                 "why": {"2": "a serial query / json-delta request took the history lock more than once: with a validation "
+                              "cycle in between the change set and the serial it is tagged with belong to different versions"}}],
     "level_text": "Invariant proof over all histories (any number of updates, any starting serial incl. wrap-around): "
                   "the retained change sets always describe a window of consecutively issued versions, and "
                   "delta_since equals the abstract answer function of that window; hence every answer is exact and "
